@@ -345,6 +345,14 @@ func init() {
 		},
 		twigPkg + "symConcurrentPhase": func(e *Engine, a []Value) Value {
 			e.ls.on = a[0].(Bool).V
+			if e.ls.on {
+				// package-level state of the code under test is shared by every goroutine of the process
+				for g, cell := range e.globals {
+					if g.Pkg == e.pkg && !strings.HasPrefix(g.Name(), "vh") && !strings.HasPrefix(g.Name(), "init$") {
+						e.markShared(cell, g.Type(), "global "+g.Name())
+					}
+				}
+			}
 			return nil
 		},
 		twigPkg + "symTag": func(e *Engine, a []Value) Value {
